@@ -13,16 +13,29 @@ open GFS GFS.Model.Chunk GFS.Spec.ChunkSpec GFS.Props.C12
 def enc (cs : List Chunk) : Bytes := (cs.map encodeChunk).flatten
 def pay (cs : List Chunk) : Bytes := (cs.map (·.payload)).flatten
 
+/-- the stream ends with a zero-size chunk -/
+def EndsZero (rem : List Chunk) : Prop := ∀ c, rem.getLast? = some c → c.payload = []
+
+theorem endsZero_tail (c : Chunk) (r : List Chunk) (h : EndsZero (c :: r)) (hr : r ≠ []) : EndsZero r := by
+  intro x hx
+  apply h x
+  cases r with
+  | nil => exact absurd rfl hr
+  | cons y ys => rw [List.getLast?_cons_cons]; exact hx
+theorem endsZero_nil : EndsZero [] := by intro c hc; simp at hc
+theorem endsZero_single (c : Chunk) (h : EndsZero [c]) : c.payload = [] := h c rfl
+
 /-- the decoder stands in front of a chunk header (after the CRLF `tr` of the previous chunk,
     when there was one); `D` has been delivered so far, `P` is the whole payload -/
 def AtHdr (P D : Bytes) (st : St) (input : Bytes) : Prop :=
   ∃ tr rem, st.remain = 0 ∧ input = tr ++ enc rem ∧ (if st.notFirst then tr.length = 2 else tr = []) ∧
-    (∀ c ∈ rem, c.WF) ∧ D ++ pay rem = P
+    (∀ c ∈ rem, c.WF) ∧ D ++ pay rem = P ∧
+    st.complete = false ∧ EndsZero rem ∧ (rem = [] → st.notFirst = true ∧ st.last = 0)
 
 /-- the decoder is inside a chunk's payload with `p` still to deliver -/
 def AtData (P D : Bytes) (st : St) (input : Bytes) : Prop :=
-  ∃ p tr rem, p ≠ [] ∧ st = ⟨p.length, true⟩ ∧ input = p ++ (tr ++ enc rem) ∧ tr.length = 2 ∧
-    (∀ c ∈ rem, c.WF) ∧ D ++ (p ++ pay rem) = P
+  ∃ p tr rem L, p ≠ [] ∧ st = ⟨p.length, true, L, false⟩ ∧ input = p ++ (tr ++ enc rem) ∧ tr.length = 2 ∧
+    (∀ c ∈ rem, c.WF) ∧ D ++ (p ++ pay rem) = P ∧ rem ≠ [] ∧ EndsZero rem
 
 def Inv (P D : Bytes) (st : St) (input : Bytes) : Prop := AtHdr P D st input ∨ AtData P D st input
 
@@ -32,9 +45,11 @@ structure Good (cfg : Cfg) (P D acc : Bytes) (r : ReadRes) : Prop where
     (r.err = none → Inv P (D ++ o) r.st r.input) ∧
     (∀ e, r.err = some e → e = cfg.tail.toEnd ∧ D ++ o = P)
   unk : r.unk = false
+  /-- when the end is reported, the terminating chunk has been read to its end -/
+  fin : ∀ e, r.err = some e → r.st.complete = true
 
 theorem inv_prefix (P D : Bytes) (st : St) (input : Bytes) (h : Inv P D st input) : D <+: P := by
-  rcases h with ⟨tr, rem, _, _, _, _, hD⟩ | ⟨p, tr, rem, _, _, _, _, _, hD⟩
+  rcases h with ⟨tr, rem, _, _, _, _, hD, _⟩ | ⟨p, tr, rem, L, _, _, _, _, _, hD, _⟩
   · exact ⟨_, hD⟩
   · exact ⟨_, hD⟩
 
@@ -43,21 +58,41 @@ theorem skip_append (tr X : Bytes) (n : Nat) (h : tr.length = n) : skip n (tr ++
   have : n ≤ (tr ++ X).length := by simp; omega
   simp [this, ← h]
 
+/-- the state after a chunk header has been read -/
+theorem hdr_inv (P D : Bytes) (c : Chunk) (rem' : List Chunk) (hwfc : c.WF) (hwf' : ∀ x ∈ rem', x.WF)
+    (hD : D ++ pay (c :: rem') = P) (hez : EndsZero (c :: rem')) :
+    Inv P D ⟨(hexValue c.digits : Int), true, (hexValue c.digits : Int), false⟩ (c.payload ++ (c.trailer ++ enc rem')) := by
+  obtain ⟨hne, hall, hval, hmax, hext, htrl⟩ := hwfc
+  by_cases hpe : c.payload = []
+  · left
+    refine ⟨c.trailer, rem', by simp [hval, hpe], by simp [hpe], by simp [htrl], hwf', ?_, rfl, ?_, ?_⟩
+    · simpa [pay, hpe] using hD
+    · by_cases hr0 : rem' = []
+      · rw [hr0]; exact endsZero_nil
+      · exact endsZero_tail c rem' hez hr0
+    · intro _; exact ⟨rfl, by simp [hval, hpe]⟩
+  · right
+    have hr0 : rem' ≠ [] := by
+      intro e; subst e; exact hpe (endsZero_single c hez)
+    refine ⟨c.payload, c.trailer, rem', (hexValue c.digits : Int), hpe, by simp [hval], rfl, htrl, hwf', ?_, hr0, endsZero_tail c rem' hez hr0⟩
+    simpa [pay] using hD
+
 theorem read_good (cfg : Cfg) (P : Bytes) (fuel : Nat) :
     ∀ (st : St) (input : Bytes) (want : Nat) (acc D : Bytes), Inv P D st input →
       Good cfg P D acc (GFS.Model.Chunk.read cfg fuel st input want acc) := by
   induction fuel with
   | zero =>
     intro st input want acc D h
-    exact ⟨⟨[], by simp [GFS.Model.Chunk.read], by intro _; simpa [GFS.Model.Chunk.read] using h, by intro e he; simp [GFS.Model.Chunk.read] at he⟩, by simp [GFS.Model.Chunk.read]⟩
+    exact ⟨⟨[], by simp [GFS.Model.Chunk.read], by intro _; simpa [GFS.Model.Chunk.read] using h, by intro e he; simp [GFS.Model.Chunk.read] at he⟩, by simp [GFS.Model.Chunk.read],
+      by intro e he; simp [GFS.Model.Chunk.read] at he⟩
   | succ fuel ih =>
     intro st input want acc D h
     unfold GFS.Model.Chunk.read
     by_cases hw : want = 0
     · simp only [hw, if_true]
-      exact ⟨⟨[], by simp, by intro _; simpa using h, by intro e he; simp at he⟩, rfl⟩
+      exact ⟨⟨[], by simp, by intro _; simpa using h, by intro e he; simp at he⟩, rfl, by intro e he; simp at he⟩
     · simp only [hw, if_false]
-      rcases h with ⟨tr, rem, hr, hin, htr, hwf, hD⟩ | ⟨p, tr, rem, hp, hst, hin, htr, hwf, hD⟩
+      rcases h with ⟨tr, rem, hr, hin, htr, hwf, hD, hcf, hez, hlast⟩ | ⟨p, tr, rem, L, hp, hst, hin, htr, hwf, hD, hrne, hez⟩
       · -- header branch
         have hr' : ¬ st.remain > 0 := by omega
         simp only [hr', if_false]
@@ -71,12 +106,15 @@ theorem read_good (cfg : Cfg) (P : Bytes) (fuel : Nat) :
         cases rem with
         | nil =>
           -- nothing follows: the end of the stream, everything has been delivered
+          obtain ⟨hnf, hl0⟩ := hlast rfl
           simp only [enc, List.map_nil, List.flatten_nil, scanHexSemi, skipScanSpace]
-          refine ⟨⟨[], by simp, by intro he; simp at he, ?_⟩, rfl⟩
-          intro e he
-          simp only [Option.some.injEq] at he
-          refine ⟨he.symm, ?_⟩
-          simpa [pay] using hD
+          refine ⟨⟨[], by simp, by intro he; simp at he, ?_⟩, rfl, ?_⟩
+          · intro e he
+            simp only [Option.some.injEq] at he
+            refine ⟨he.symm, ?_⟩
+            simpa [pay] using hD
+          · intro e _
+            simp [hnf, hl0]
         | cons c rem' =>
           obtain ⟨hne, hall, hval, hmax, hext, htrl⟩ := hwf c (List.mem_cons_self ..)
           have henc : enc (c :: rem') = c.digits ++ 59 :: (c.ext ++ (c.payload ++ (c.trailer ++ enc rem'))) := by
@@ -87,13 +125,7 @@ theorem read_good (cfg : Cfg) (P : Bytes) (fuel : Nat) :
           simp only [hscan, skip_append c.ext _ 82 hext]
           have hwf' : ∀ c ∈ rem', c.WF := fun x hx => hwf x (List.mem_cons_of_mem _ hx)
           apply ih
-          by_cases hpe : c.payload = []
-          · left
-            refine ⟨c.trailer, rem', by simp [hval, hpe], by simp [hpe], by simp [htrl], hwf', ?_⟩
-            simpa [pay, hpe] using hD
-          · right
-            refine ⟨c.payload, c.trailer, rem', hpe, by simp [hval], rfl, htrl, hwf', ?_⟩
-            simpa [pay] using hD
+          exact hdr_inv P D c rem' (hwf c (List.mem_cons_self ..)) hwf' hD hez
       · -- data branch
         subst hst
         have hpos : (p.length : Int) > 0 := by
@@ -132,15 +164,15 @@ theorem read_good (cfg : Cfg) (P : Bytes) (fuel : Nat) :
           | nil => simp at htr
           | cons t ts => simp
         simp only [hrest, Bool.false_and, Bool.false_eq_true, if_false]
-        have hinv : Inv P (D ++ p.take n) ⟨(p.length : Int) - n, true⟩ (input.drop n) := by
+        have hinv : Inv P (D ++ p.take n) ⟨(p.length : Int) - n, true, L, false⟩ (input.drop n) := by
           by_cases hfin : n = p.length
           · left
-            refine ⟨tr, rem, by simp [hfin], by rw [hdrop, hfin]; simp, by simp [htr], hwf, ?_⟩
+            refine ⟨tr, rem, by simp [hfin], by rw [hdrop, hfin]; simp, by simp [htr], hwf, ?_, rfl, hez, fun e => absurd e hrne⟩
             rw [hfin, List.take_length]
             simpa [List.append_assoc] using hD
           · right
             have hlt : n < p.length := by omega
-            refine ⟨p.drop n, tr, rem, ?_, ?_, hdrop, htr, hwf, ?_⟩
+            refine ⟨p.drop n, tr, rem, L, ?_, ?_, hdrop, htr, hwf, ?_, hrne, hez⟩
             · intro he
               have := congrArg List.length he
               simp at this; omega
@@ -149,10 +181,10 @@ theorem read_good (cfg : Cfg) (P : Bytes) (fuel : Nat) :
               omega
             · rw [List.append_assoc, ← List.append_assoc (p.take n), List.take_append_drop]
               exact hD
-        have := ih ⟨(p.length : Int) - n, true⟩ (input.drop n) (want - n) (acc ++ input.take n) (D ++ p.take n) hinv
+        have := ih ⟨(p.length : Int) - n, true, L, false⟩ (input.drop n) (want - n) (acc ++ input.take n) (D ++ p.take n) hinv
         rw [htake] at this ⊢
-        obtain ⟨⟨o, ho, h1, h2⟩, hu⟩ := this
-        refine ⟨⟨p.take n ++ o, by rw [ho]; simp [List.append_assoc], ?_, ?_⟩, hu⟩
+        obtain ⟨⟨o, ho, h1, h2⟩, hu, hf⟩ := this
+        refine ⟨⟨p.take n ++ o, by rw [ho]; simp [List.append_assoc], ?_, ?_⟩, hu, hf⟩
         · intro he; simpa [List.append_assoc] using h1 he
         · intro e he; simpa [List.append_assoc] using h2 e he
 
@@ -175,7 +207,7 @@ theorem read_progress (cfg : Cfg) (P : Bytes) (fuel : Nat) :
   | succ fuel ih =>
     intro st input want acc D h hf hw0
     have hw : ¬ want = 0 := by omega
-    rcases h with ⟨tr, rem, hr, hin, htr, hwf, hD⟩ | ⟨p, tr, rem, hp, hst, hin, htr, hwf, hD⟩
+    rcases h with ⟨tr, rem, hr, hin, htr, hwf, hD, hcf, hez, hlast⟩ | ⟨p, tr, rem, L, hp, hst, hin, htr, hwf, hD, hrne, hez⟩
     · unfold GFS.Model.Chunk.read
       simp only [hw, if_false]
       have hr' : ¬ st.remain > 0 := by omega
@@ -201,22 +233,15 @@ theorem read_progress (cfg : Cfg) (P : Bytes) (fuel : Nat) :
         rw [henc]
         simp only [hscan, skip_append c.ext _ 82 hext]
         have hwf' : ∀ c ∈ rem', c.WF := fun x hx => hwf x (List.mem_cons_of_mem _ hx)
-        have hinv : Inv P D ⟨(hexValue c.digits : Int), true⟩ (c.payload ++ (c.trailer ++ enc rem')) := by
-          by_cases hpe : c.payload = []
-          · left
-            refine ⟨c.trailer, rem', by simp [hval, hpe], by simp [hpe], by simp [htrl], hwf', ?_⟩
-            simpa [pay, hpe] using hD
-          · right
-            refine ⟨c.payload, c.trailer, rem', hpe, by simp [hval], rfl, htrl, hwf', ?_⟩
-            simpa [pay] using hD
+        have hinv := hdr_inv P D c rem' (hwf c (List.mem_cons_self ..)) hwf' hD hez
         apply ih _ _ _ _ D hinv _ hw0
         have : input.length ≥ (enc (c :: rem')).length := by rw [hin]; simp
         omega
     · -- data branch: the first inner read already delivers a byte
       subst hst
       intro he
-      have hgood := read_good cfg P (fuel + 1) ⟨p.length, true⟩ input want acc D
-        (Or.inr ⟨p, tr, rem, hp, rfl, hin, htr, hwf, hD⟩)
+      have hgood := read_good cfg P (fuel + 1) ⟨p.length, true, L, false⟩ input want acc D
+        (Or.inr ⟨p, tr, rem, L, hp, rfl, hin, htr, hwf, hD, hrne, hez⟩)
       revert he hgood
       unfold GFS.Model.Chunk.read
       simp only [hw, if_false]
@@ -254,14 +279,14 @@ theorem read_progress (cfg : Cfg) (P : Bytes) (fuel : Nat) :
       have htl : (input.take n).length = n := by
         rw [List.length_take]; rw [hin]; simp; omega
       -- whatever the rest of the loop does, its output extends acc ++ got
-      have hinv : Inv P (D ++ p.take n) ⟨(p.length : Int) - n, true⟩ (input.drop n) := by
+      have hinv : Inv P (D ++ p.take n) ⟨(p.length : Int) - n, true, L, false⟩ (input.drop n) := by
         by_cases hfin : n = p.length
         · left
-          refine ⟨tr, rem, by simp [hfin], by rw [hdrop, hfin]; simp, by simp [htr], hwf, ?_⟩
+          refine ⟨tr, rem, by simp [hfin], by rw [hdrop, hfin]; simp, by simp [htr], hwf, ?_, rfl, hez, fun e => absurd e hrne⟩
           rw [hfin, List.take_length]
           simpa [List.append_assoc] using hD
         · right
-          refine ⟨p.drop n, tr, rem, ?_, ?_, hdrop, htr, hwf, ?_⟩
+          refine ⟨p.drop n, tr, rem, L, ?_, ?_, hdrop, htr, hwf, ?_, hrne, hez⟩
           · intro he
             have := congrArg List.length he
             simp at this; omega
@@ -270,12 +295,24 @@ theorem read_progress (cfg : Cfg) (P : Bytes) (fuel : Nat) :
             omega
           · rw [List.append_assoc, ← List.append_assoc (p.take n), List.take_append_drop]
             exact hD
-      obtain ⟨⟨o, ho, _, _⟩, _⟩ := read_good cfg P fuel ⟨(p.length : Int) - n, true⟩ (input.drop n) (want - n)
+      obtain ⟨⟨o, ho, _, _⟩, _⟩ := read_good cfg P fuel ⟨(p.length : Int) - n, true, L, false⟩ (input.drop n) (want - n)
         (acc ++ input.take n) (D ++ p.take n) hinv
       intro _ _
       rw [ho]
       simp only [List.length_append, htl]
       omega
+
+/-- on a well-formed stream the completeness check of `Read` never fires -/
+theorem readF_eq (cfg : Cfg) (P D acc : Bytes) (fuel : Nat) (st : St) (input : Bytes) (want : Nat)
+    (h : Good cfg P D acc (GFS.Model.Chunk.read cfg fuel st input want acc)) :
+    readF cfg fuel st input want acc = GFS.Model.Chunk.read cfg fuel st input want acc := by
+  unfold readF
+  simp only
+  split
+  · rename_i hc
+    have := h.fin _ hc.1
+    rw [hc.2] at this; cases this
+  · rfl
 
 /-- the whole-stream statement for the consumer loop -/
 theorem consume_good (cfg : Cfg) (P : Bytes) (bufs : List Nat) :
@@ -291,9 +328,11 @@ theorem consume_good (cfg : Cfg) (P : Bytes) (bufs : List Nat) :
       by intro e he; simp [consume] at he⟩
   | cons b bs ih =>
     intro st input acc D h
-    obtain ⟨⟨o, ho, h1, h2⟩, hu⟩ := read_good cfg P (input.length + 2) st input b [] D h
+    have hg := read_good cfg P (input.length + 2) st input b [] D h
+    have hg' := hg
+    obtain ⟨⟨o, ho, h1, h2⟩, hu, _⟩ := hg'
     simp only [List.nil_append] at ho
-    simp only [consume]
+    simp only [consume, readF_eq cfg P D [] _ st input b hg]
     cases he : (GFS.Model.Chunk.read cfg (input.length + 2) st input b []).err with
     | some e =>
       simp only
@@ -322,18 +361,19 @@ theorem consume_good (cfg : Cfg) (P : Bytes) (bufs : List Nat) :
     * has delivered, at every moment, a prefix of the concatenation of the chunk payloads,
     * reports the end of the stream only when it has delivered exactly that concatenation, and
       the end it reports is the transport's own (EOF for EOF). -/
-theorem decode_any_fragmentation (cfg : Cfg) (chunks : List Chunk) (hwf : ∀ c ∈ chunks, c.WF) (bufs : List Nat) :
+theorem decode_any_fragmentation (cfg : Cfg) (chunks : List Chunk) (hwf : ∀ c ∈ chunks, c.WF)
+    (hne : chunks ≠ []) (hz : EndsZero chunks) (bufs : List Nat) :
     let r := decode cfg bufs (enc chunks)
     r.2.2 = false ∧ r.1 <+: pay chunks ∧
     (∀ e, r.2.1 = some e → e = cfg.tail.toEnd ∧ r.1 = pay chunks) := by
-  have hinit : Inv (pay chunks) [] ⟨0, false⟩ (enc chunks) :=
-    Or.inl ⟨[], chunks, rfl, by simp, by simp, hwf, by simp⟩
-  obtain ⟨o, h1, h2, h3, h4⟩ := consume_good cfg (pay chunks) bufs ⟨0, false⟩ (enc chunks) [] [] hinit
+  have hinit : Inv (pay chunks) [] St.init (enc chunks) :=
+    Or.inl ⟨[], chunks, rfl, by simp, by simp [St.init], hwf, by simp, rfl, hz, fun e => absurd e hne⟩
+  obtain ⟨o, h1, h2, h3, h4⟩ := consume_good cfg (pay chunks) bufs St.init (enc chunks) [] [] hinit
   simp only [List.nil_append] at h1 h3 h4
   unfold decode
   refine ⟨h2, ?_, ?_⟩
   · rw [h1]
-    cases he : (consume cfg bufs ⟨0, false⟩ (enc chunks) []).2.1 with
+    cases he : (consume cfg bufs St.init (enc chunks) []).2.1 with
     | none =>
       obtain ⟨st', input', hh⟩ := h3 he
       exact inv_prefix _ _ _ _ hh
@@ -353,9 +393,11 @@ theorem consume_completes (cfg : Cfg) (P : Bytes) (bufs : List Nat) :
   | nil => intro st input acc D h hb hl; simp at hl
   | cons b bs ih =>
     intro st input acc D h hb hl
-    obtain ⟨⟨o, ho, h1, h2⟩, hu⟩ := read_good cfg P (input.length + 2) st input b [] D h
+    have hg := read_good cfg P (input.length + 2) st input b [] D h
+    have hg' := hg
+    obtain ⟨⟨o, ho, h1, h2⟩, hu, _⟩ := hg'
     have hprog := read_progress cfg P (input.length + 2) st input b [] D h (Nat.le_refl _) (hb b (List.mem_cons_self ..))
-    simp only [consume]
+    simp only [consume, readF_eq cfg P D [] _ st input b hg]
     cases he : (GFS.Model.Chunk.read cfg (input.length + 2) st input b []).err with
     | some e => simp
     | none =>
@@ -374,21 +416,22 @@ theorem consume_completes (cfg : Cfg) (P : Bytes) (bufs : List Nat) :
 /-- **decode_complete**: reading a well-formed chunk list to the end — with any fragmentation,
     any non-empty buffer sizes, at least (payload length + 1) reads — delivers exactly the
     concatenation of the payloads and ends with the transport's own end of stream. -/
-theorem decode_complete (cfg : Cfg) (chunks : List Chunk) (hwf : ∀ c ∈ chunks, c.WF) (bufs : List Nat)
+theorem decode_complete (cfg : Cfg) (chunks : List Chunk) (hwf : ∀ c ∈ chunks, c.WF)
+    (hne : chunks ≠ []) (hz : EndsZero chunks) (bufs : List Nat)
     (hb : ∀ b ∈ bufs, 0 < b) (hn : (pay chunks).length < bufs.length) :
     decode cfg bufs (enc chunks) = (pay chunks, some cfg.tail.toEnd, false) := by
-  have hinit : Inv (pay chunks) [] ⟨0, false⟩ (enc chunks) :=
-    Or.inl ⟨[], chunks, rfl, by simp, by simp, hwf, by simp⟩
-  have hc := consume_completes cfg (pay chunks) bufs ⟨0, false⟩ (enc chunks) [] [] hinit hb (by simpa using hn)
-  obtain ⟨h1, h2, h3⟩ := decode_any_fragmentation cfg chunks hwf bufs
+  have hinit : Inv (pay chunks) [] St.init (enc chunks) :=
+    Or.inl ⟨[], chunks, rfl, by simp, by simp [St.init], hwf, by simp, rfl, hz, fun e => absurd e hne⟩
+  have hc := consume_completes cfg (pay chunks) bufs St.init (enc chunks) [] [] hinit hb (by simpa using hn)
+  obtain ⟨h1, h2, h3⟩ := decode_any_fragmentation cfg chunks hwf hne hz bufs
   unfold decode at *
-  cases he : (consume cfg bufs ⟨0, false⟩ (enc chunks) []).2.1 with
+  cases he : (consume cfg bufs St.init (enc chunks) []).2.1 with
   | none => exact absurd he hc
   | some e =>
     obtain ⟨e1, e2⟩ := h3 e he
-    have : consume cfg bufs ⟨0, false⟩ (enc chunks) [] =
-        ((consume cfg bufs ⟨0, false⟩ (enc chunks) []).1, (consume cfg bufs ⟨0, false⟩ (enc chunks) []).2.1,
-          (consume cfg bufs ⟨0, false⟩ (enc chunks) []).2.2) := rfl
+    have : consume cfg bufs St.init (enc chunks) [] =
+        ((consume cfg bufs St.init (enc chunks) []).1, (consume cfg bufs St.init (enc chunks) []).2.1,
+          (consume cfg bufs St.init (enc chunks) []).2.2) := rfl
     rw [this, e2, he, h1, e1]
 
 /-- the same for the stream shape the statement names (data chunks + final zero-size chunk) -/
@@ -404,7 +447,7 @@ theorem decode_wellformed_stream (cfg : Cfg) (cs : List Chunk) (final : Chunk) (
     rcases List.mem_append.mp hc with h | h
     · exact (hwf.1 c h).1
     · simp at h; subst h; exact hwf.2.1
-  have := decode_any_fragmentation cfg (cs ++ [final]) hall bufs
+  have := decode_any_fragmentation cfg (cs ++ [final]) hall (by simp) (by intro c hc; simp at hc; subst hc; exact hwf.2.2) bufs
   rw [henc, ← hpay]
   exact this
 
